@@ -192,6 +192,23 @@ func (p *Perturber) mutate(root *Node, m mapRef) {
 		case roleRoot:
 			vals = append(vals, "{groups: []}", "{groups: x}")
 		}
+		if m.role == roleStrMap && len(n.Pairs) > 0 && rapid.IntRange(0, 2).Draw(t, p.lbl("mover")) == 0 {
+			// a key set in place AND by the merged mapping: YAML keeps the value written in place, wherever the
+			// merge key stands.  One of the two values is unusable (broken template, wrong type).
+			k := keyText(n.Pairs[pi].Key)
+			bad := p.pick([]string{"\"{{ if }}\"", "\"{{ nofunc }}\"", "\"{{ $x }}\"", "[a]", "{b: c}"}, "mbad")
+			good := "fine"
+			own, merged := bad, good
+			if rapid.Bool().Draw(t, p.lbl("mwhich")) {
+				own, merged = good, bad
+			}
+			n.Pairs[pi].Val = Raw(own)
+			mp := Pair{Key: Raw("<<"), Val: Raw(fmt.Sprintf("{%q: %s}", k, merged))}
+			at := rapid.IntRange(0, len(n.Pairs)).Draw(t, p.lbl("mat"))
+			n.Pairs = append(n.Pairs[:at], append([]Pair{mp}, n.Pairs[at:]...)...)
+			p.note("%s merge-overrides-own-key", m.role)
+			return
+		}
 		at := rapid.IntRange(0, len(n.Pairs)).Draw(t, p.lbl("mat"))
 		mp := Pair{Key: Raw("<<"), Val: Raw(p.pick(vals, "mval"))}
 		n.Pairs = append(n.Pairs[:at], append([]Pair{mp}, n.Pairs[at:]...)...)
